@@ -297,7 +297,7 @@ def _body_st(html=False):
             body = "<html><body><p>" + "</p><p>".join(lines) + "</p></body></html>\n"
         return {"text": body, "charset": charset, "cte": cte}
     return st.tuples(st.sampled_from(sorted(CHARSETS)), st.sampled_from(["7bit", "8bit", "quoted-printable", "base64"]),
-                     st.sampled_from(["", "x" * 90, "From sender@example.org Fri Mar  1 12:00:00 2024 inside text", "semi=colon;equals=", "."]), st.integers(1000, 9999).map(lambda n: f"ZB{n:05d}")).map(mk)
+                     st.sampled_from(["", "x" * 90, "From sender@example.org Fri Mar  1 12:00:00 2024 inside text", "From sender@example.org Fri Mar  1 12:00:00 2024", "mid-line From a@b.c 1999", "From", "semi=colon;equals=", "."]), st.integers(1000, 9999).map(lambda n: f"ZB{n:05d}")).map(mk)
 
 
 def _att_st():
